@@ -53,14 +53,30 @@ fn gen(ctx: &GenCtx, i: u64) -> Option<Run> {
         let key = rb.key(kx.clone());
         let layer = ALL_LAYERS[((i / 56) % 3) as usize];
         let slow = matches!(x, Proto::V3P | Proto::V1P) || matches!(y, Proto::V3P);
-        let mlen = if slow { *r.pick(&[0usize, 1, 40, 100, 200]) } else { gen_len(&mut r, false) };
+        // half of the runs: a raw message whose length sits on the nonce/tag/signature arithmetic of the
+        // other protocols (a relabelled short token must not slip through a weakened receiver)
+        let raw = layer == Layer::Core && r.chance(1, 2);
+        let mlen = if raw {
+            *r.pick(&[0usize, 0, 1, 1, 2, 8, 15, 16, 17, 24, 31, 32, 33, 40, 48, 56, 64, 96])
+        } else if slow {
+            *r.pick(&[0usize, 1, 40, 100, 200])
+        } else {
+            gen_len(&mut r, false)
+        };
         let footer = gen_opt_text(&mut r).map(|f| f.chars().take(12).collect::<String>());
         let assertion = if x.has_assertion() && r.chance(1, 3) { Some(nonempty_text!(r, 8)) } else { None };
         let msg = ascii!(r, mlen);
-        let jp = if r.chance(2, 3) { Some(json!({"data": msg.clone(), "sub": "s"})) } else { None };
+        let jp = if !raw && r.chance(2, 3) { Some(json!({"data": msg.clone(), "sub": "s"})) } else { None };
         let opts = IssueOpts { proto: x, layer, key, footer: footer.clone(), assertion, now, message: msg, json_payload: jp, extra_claims: vec![] };
         let t = issue(&mut rb, &mut r, opts);
-        (t.msg, kx, footer, t.issued_at + r.range(1, HOUR - 2))
+        let at = t.issued_at + r.range(1, HOUR - 2);
+        // the token is first verified where it belongs (X): nothing learnt there may help it at Y
+        let vx_layer = if t.layer == Layer::Core { Layer::Core } else { random_layer(&mut r) };
+        let mut sx = plain_spec(&t, vx_layer);
+        sx.default_validators = vx_layer == Layer::Batteries;
+        let vx = rb.verifier(sx);
+        rb.deliver(t.msg, vx, at);
+        (t.msg, kx, footer, at)
     };
     // ---- Y's key: shared bytes where both protocols accept them
     let ky = if x.is_local() && y.is_local() {
